@@ -5,7 +5,7 @@ concrete (replay) values.
 """
 from symx import smax, smin, sand, sor, snot, implies, ite, seq_, is_sym, Violation
 
-from env.scenario import Boom
+from env.scenario import Boom, BoomBase
 
 
 # ------------------------------------------------------------------------------- helpers
@@ -218,7 +218,7 @@ def admissible(api, run):
 
 
 def c03_progress(api, run):
-    if run.outcome[0] == "exc" and not isinstance(run.outcome[1], (Boom, TimeoutError)):
+    if run.outcome[0] == "exc" and not isinstance(run.outcome[1], (Boom, BoomBase, TimeoutError)):
         # neither a verdict nor one of the documented exceptions of a critical scheduler: the orchestration broke
         # down with jobs left over (typically ValueError('Set of Tasks/Futures is empty.'))
         unstarted = [n.name for n in run.top.children if run.started(n) is None]
@@ -390,6 +390,8 @@ def propagation(api, run, m, c, pid, why):
                 prove(api, seq_(f.t, c.t), "%s: %s (inside %s) kept running after %s" % (pid, j, m, why), run)
                 continue
             fail(api, "%s: %s (inside %s) was never cancelled although %s" % (pid, j, m, why), run)
+        if jc.seq < c.seq:
+            continue            # already being cancelled by its own scheduler (which was in an exit path itself)
         api.note("propagated_cancellations")
         prove(api, seq_(jc.t, c.t), "%s: %s (inside %s) was cancelled at another instant than %s was, %s"
               % (pid, j, m, m, why), run)
@@ -793,7 +795,7 @@ def c10_nested_results(api, run):
             if o.raised_exception() is not e.x:
                 fail(api, "C10: raised_exception() of nested %s is not the exception its run raised" % s, run)
             prove(api, truthy(s.p["crit"]), "C10: non-critical nested %s raised %r" % (s, e.x), run)
-            if isinstance(e.x, Boom):
+            if isinstance(e.x, (Boom, BoomBase)):
                 # the very object raised by an atomic job somewhere below
                 src = [j for j in s.descendants() if not j.is_sched and j.exc is e.x]
                 if not src:
@@ -814,7 +816,8 @@ def c11_clean_exit(api, run):
     n_before = len(run.events)
     seq_ret = run.seq_return
     if pend:
-        names = sorted(set(getattr(getattr(t, "_job", None), "label", None) or "shutdown/other" for t in pend))
+        names = sorted(set(getattr(getattr(getattr(t, "_job", None), "_node", None), "name", None)
+                           or "shutdown/other" for t in pend))
         fail(api, "C11: %d task(s) created by the run are still pending after run() returned (%s)"
              % (len(pend), ", ".join(map(str, names))), run)
     loop.run_idle()
